@@ -59,6 +59,8 @@ type opData struct {
 	bySymbol bool
 	// split: the hook receipt carries the amount as two events (1 and the rest)
 	split bool
+	// via: the EVM transaction is addressed to another contract that calls the bound one
+	via bool
 }
 
 // Driver implements mc.Driver.
@@ -166,6 +168,9 @@ func (d *Driver) Enabled(e *mc.Env, s *mc.State) []mc.Op {
 	add("hook-to-native(B,all+1,A)", opData{kind: "hook", who: "B", to: "A", rel: "all+1"})
 	// one EVM transaction whose receipt carries two SwapToNative events for the same receiver (1 + 2)
 	add("hook-to-native(B,1+2,A,one-receipt)", opData{kind: "hook", who: "B", to: "A", amt: sdkmath.NewInt(3), split: true})
+	// the contract's swapToNative reached through another contract (a router, a wallet contract): the transaction
+	// is addressed to that contract, the event is the bound contract's all the same
+	add("hook-to-native(B,2,A,via-other-contract)", opData{kind: "hook", who: "B", to: "A", amt: sdkmath.NewInt(2), via: true})
 	// governance switches the ERC20 feature off / on: conversions attempted while it is off must fail as a whole
 	add("erc20-off", opData{kind: "switch", rel: "off"})
 	add("erc20-on", opData{kind: "switch", rel: "on"})
@@ -291,7 +296,14 @@ func (d *Driver) Apply(e *mc.Env, s *mc.State, op mc.Op) []mc.Finding {
 					}
 					receipt.Logs = append(receipt.Logs, &ethtypes.Log{Address: d.contract, Topics: []common.Hash{ev.ID}, Data: data})
 				}
-				return &v1.MsgSwapFromERC20Response{}, e.Token.Hooks().PostTxProcessing(ctx, nil, receipt)
+				// the EVM transaction the receipt belongs to: a call by the holder to the contract itself, or to
+				// another contract that calls it
+				callee := d.contract
+				if od.via {
+					callee = common.HexToAddress("0x00000000000000000000000000000000000000aa")
+				}
+				evmMsg := ethtypes.NewMessage(eth(od.who), &callee, 0, big.NewInt(0), 100000, big.NewInt(0), big.NewInt(0), big.NewInt(0), nil, nil, false)
+				return &v1.MsgSwapFromERC20Response{}, e.Token.Hooks().PostTxProcessing(ctx, evmMsg, receipt)
 			}, &v1.MsgSwapFromERC20{WantedAmount: mc.CI(unitA, amt), Sender: mc.Addr(od.who).String(), Receiver: mc.Addr(od.to).String()})
 		}
 		d.evm.Fault = envseam.FaultNone
